@@ -16,18 +16,18 @@ T, VAL, NAME, FEW = ('InvalidArgumentTypeException', 'InvalidArgumentValueExcept
                      'InvalidCapturingGroupNameException', 'NotEnoughArgumentsException')
 OK = 'ok'
 
-PRE = [("'a'", OK), ("Pregex('a')", OK), ("AnyDigit()", OK), ("'a.b'", OK), ("Either('a', 'b')", OK), ("Pregex()", OK),
+PRE = [("'a'", OK), ("StrSub('a.')", OK), ("Pregex('a')", OK), ("AnyDigit()", OK), ("'a.b'", OK), ("Either('a', 'b')", OK), ("Pregex()", OK),
        ("None", T), ("1", T), ("1.5", T), ("True", T), ("['a']", T), ("b'a'", T)]
 PRE_NE = [x for x in PRE if x[0] != 'Pregex()']          # positions where the empty pattern has documented special meaning
 BOOL = [("True", OK), ("False", OK)]
-NAMES = [("'x'", OK), ("'_a1'", OK), ("'A'", OK), ("''", NAME), ("'1a'", NAME), ("'a b'", NAME), ("'a-b'", NAME), ("'a\\n'", NAME),
+NAMES = [("'x'", OK), ("StrSub('x')", OK), ("'_a1'", OK), ("'A'", OK), ("''", NAME), ("'1a'", NAME), ("'a b'", NAME), ("'a-b'", NAME), ("'a\\n'", NAME),
          ("' a'", NAME), ("'a.'", NAME), ("'caf\u00e9'", OK), ("'x\u0661'", OK), ("'x\u00b2'", NAME), ("'x\u0301'", NAME), ("'\u00e9'", NAME), ("'a('", NAME), ("'(?P<x>'", NAME), ("1", T), ("True", T), ("1.5", T), ("['x']", T)]
 NAMES_OPT = [("None", OK)] + NAMES
-INT0 = [("0", OK), ("1", OK), ("2", OK), ("-1", VAL), ("True", T), ("'1'", T), ("1.0", T), ("None", T)]
-INT0N = [("0", OK), ("1", OK), ("3", OK), ("None", OK), ("-1", VAL), ("True", T), ("'1'", T), ("1.5", T)]
-REF = [("1", OK), ("99", OK), ("0", VAL), ("100", VAL), ("-1", VAL), ("True", T), ("1.5", T), ("None", T), ("'n'", OK), ("'_x9'", OK),
+INT0 = [("0", OK), ("1", OK), ("2", OK), ("IntSub(2)", OK), ("-1", VAL), ("True", T), ("'1'", T), ("1.0", T), ("None", T)]
+INT0N = [("0", OK), ("1", OK), ("3", OK), ("IntSub(3)", OK), ("None", OK), ("-1", VAL), ("True", T), ("'1'", T), ("1.5", T)]
+REF = [("1", OK), ("IntSub(2)", OK), ("99", OK), ("0", VAL), ("100", VAL), ("-1", VAL), ("True", T), ("1.5", T), ("None", T), ("'n'", OK), ("'_x9'", OK),
        ("''", NAME), ("'1a'", NAME), ("'a\\n'", NAME), ("'a-b'", NAME), ("['n']", T)]
-SRC = [("'ab a'", OK), ("''", OK)]
+SRC = [("'ab a'", OK), ("''", OK), ("StrSub('ba')", OK)]
 
 
 def callables():
@@ -105,27 +105,27 @@ def callables():
     # meta patterns
     for name in ('Text', 'NonWhitespace', 'Whitespace'):
         C.append((name, name + '({0})', [BOOL]))
-    WMIN = [("1", OK), ("2", OK), ("0", VAL), ("-1", VAL), ("'1'", T), ("1.5", T), ("None", T)]
-    WMAX = [("2", OK), ("None", OK), ("5", OK), ("0", VAL), ("-3", VAL), ("'2'", T), ("2.5", T)]
+    WMIN = [("1", OK), ("2", OK), ("IntSub(1)", OK), ("IntSub(2)", OK), ("0", VAL), ("-1", VAL), ("'1'", T), ("1.5", T), ("None", T)]
+    WMAX = [("2", OK), ("None", OK), ("5", OK), ("IntSub(3)", OK), ("0", VAL), ("-3", VAL), ("'2'", T), ("2.5", T)]
     C.append(('Word', 'Word({0}, {1}, {2}, {3})', [WMIN, WMAX, BOOL, BOOL]))
-    AFF = [("'ab'", OK), ("['a', 'b.c']", OK), ("'a|b'", OK), ("1", T), ("None", T), ("['a', 1]", T), ("[None]", T), ("[['a']]", T)]
+    AFF = [("'ab'", OK), ("StrSub('ab')", OK), ("['a', 'b.c']", OK), ("'a|b'", OK), ("1", T), ("None", T), ("['a', 1]", T), ("[None]", T), ("[['a']]", T)]
     for name in ('WordContains', 'WordStartsWith', 'WordEndsWith'):
         C.append((name, name + '({0}, {1}, {2})', [AFF, BOOL, BOOL]))
-    BASE = [("2", OK), ("10", OK), ("16", OK), ("1", VAL), ("17", VAL), ("0", VAL), ("-2", VAL), ("'2'", T), ("2.0", T), ("None", T)]
-    NMIN = [("0", OK), ("1", OK), ("-1", VAL), ("True", T), ("'1'", T), ("1.5", T), ("None", T)]
-    NMAX = [("1", OK), ("4", OK), ("None", OK), ("-1", VAL), ("True", T), ("'1'", T), ("1.5", T)]
+    BASE = [("2", OK), ("10", OK), ("16", OK), ("IntSub(8)", OK), ("1", VAL), ("17", VAL), ("0", VAL), ("-2", VAL), ("'2'", T), ("2.0", T), ("None", T)]
+    NMIN = [("0", OK), ("1", OK), ("IntSub(1)", OK), ("-1", VAL), ("True", T), ("'1'", T), ("1.5", T), ("None", T)]
+    NMAX = [("1", OK), ("4", OK), ("None", OK), ("IntSub(2)", OK), ("-1", VAL), ("True", T), ("'1'", T), ("1.5", T)]
     C.append(('Numeral', 'Numeral({0}, {1}, {2}, {3})', [BASE, NMIN, NMAX, BOOL]))
-    ST = [("0", OK), ("5", OK), ("-1", VAL), ("'1'", T), ("1.5", T), ("None", T)]
-    EN = [("9", OK), ("123", OK), ("'9'", T), ("9.5", T), ("None", T)]
+    ST = [("0", OK), ("5", OK), ("IntSub(3)", OK), ("-1", VAL), ("'1'", T), ("1.5", T), ("None", T)]
+    EN = [("9", OK), ("123", OK), ("IntSub(45)", OK), ("'9'", T), ("9.5", T), ("None", T)]
     C.append(('Integer', 'Integer({0}, {1}, {2}, {3})', [ST, EN, BOOL, BOOL]))
     for name in ('PositiveInteger', 'NegativeInteger', 'UnsignedInteger'):
         C.append((name, name + '({0}, {1}, {2})', [ST, EN, BOOL]))
     MIN = [("1", OK), ("2", OK), ("0", VAL), ("-1", VAL), ("True", T), ("'1'", T), ("1.0", T), ("None", T)]
-    MAX = [("2", OK), ("None", OK), ("3", OK), ("True", T), ("'2'", T), ("2.5", T)]
-    C.append(('Decimal', 'Decimal({0}, {1}, {2}, {3}, {4}, {5})', [ST[:3], EN[:3], MIN, MAX, BOOL, BOOL]))
+    MAX = [("2", OK), ("None", OK), ("3", OK), ("IntSub(3)", OK), ("True", T), ("'2'", T), ("2.5", T)]
+    C.append(('Decimal', 'Decimal({0}, {1}, {2}, {3}, {4}, {5})', [ST[:4], EN[:4], MIN, MAX, BOOL, BOOL]))
     for name in ('PositiveDecimal', 'NegativeDecimal', 'UnsignedDecimal'):
-        C.append((name, name + '({0}, {1}, {2}, {3}, {4})', [ST[:3], EN[:3], MIN, MAX, BOOL]))
-    FMT = [("'dd/mm/yyyy'", OK), ("['d-m-yy', 'yyyy/mm/dd']", OK), ("None", OK), ("'dd.mm.yyyy'", VAL), ("''", VAL), ("'DD/MM/YYYY'", VAL),
+        C.append((name, name + '({0}, {1}, {2}, {3}, {4})', [ST[:4], EN[:4], MIN, MAX, BOOL]))
+    FMT = [("'dd/mm/yyyy'", OK), ("StrSub('d/m/yy')", OK), ("['d-m-yy', 'yyyy/mm/dd']", OK), ("None", OK), ("'dd.mm.yyyy'", VAL), ("''", VAL), ("'DD/MM/YYYY'", VAL),
            ("['dd/mm/yyyy', 'x']", VAL), ("[5]", VAL), ("['dd/mm/yyyy', None]", VAL), ("5", VAL), ("20210131", VAL), ("[[]]", VAL)]
     C.append(('Date', 'Date({0}, {1})', [FMT, BOOL]))
     C.append(('IPv4', 'IPv4({0})', [BOOL]))
@@ -151,10 +151,10 @@ def callables():
         C.append((m, R + '.%s({0}, {1}, {2})' % m, [SRC, BOOL, BOOL]))
     for m in ('iterate_captures_and_pos', 'iterate_named_captures_and_pos'):
         C.append((m, 'list(' + R + '.%s({0}, {1}, {2}))' % m, [SRC, BOOL, BOOL]))
-    WIN = [("0", OK), ("2", OK), ("50", OK), ("-1", VAL), ("True", T), ("1.5", T), ("'1'", T), ("None", T)]
+    WIN = [("0", OK), ("2", OK), ("50", OK), ("IntSub(1)", OK), ("-1", VAL), ("True", T), ("1.5", T), ("'1'", T), ("None", T)]
     C.append(('get_matches_with_context', R + '.get_matches_with_context({0}, {1}, {2})', [SRC, WIN, WIN]))
     C.append(('iterate_matches_with_context', 'list(' + R + '.iterate_matches_with_context({0}, {1}, {2}))', [SRC, WIN, WIN]))
-    CNT = [("0", OK), ("1", OK), ("5", OK), ("-1", VAL), ("-7", VAL)]
+    CNT = [("0", OK), ("1", OK), ("5", OK), ("IntSub(1)", OK), ("-1", VAL), ("-7", VAL)]
     C.append(('replace', R + ".replace({0}, {1}, {2})", [SRC, [("'X'", OK), ("''", OK)], CNT]))
     return C
 
@@ -194,7 +194,7 @@ def _task(arg):
             if label in ('at_least_at_most', 'AtLeastAtMost') and not kinds:
                 # inverted bounds are a documented value error
                 n_, m_ = (combo[0][0], combo[1][0]) if label == 'at_least_at_most' else (combo[1][0], combo[2][0])
-                if m_ != 'None' and int(m_) < int(n_):
+                if m_ != 'None' and eval(m_, dict(NS)) < eval(n_, dict(NS)):
                     kinds = [VAL]
             cnt['calls'] += 1
             try:
